@@ -20,6 +20,7 @@ SUBJ = {
  "D5d": "fix: mark the storage as initialized only after",
  "D5e": "fix: rollback_to_block does not skip a script",
  "D25": "fix: a fork rolls the index back to the fork point",
+ "D26": "fix: a rollback does not restore a cell",
  "D27": "fix: a verifiable header whose total difficulty overflows",
  "D28": "fix: BlockFilterHashes with hostile numbers",
  "D29": "fix: verify_mmr_proof rejects numbers",
